@@ -1,6 +1,7 @@
 package zzharness
 
 import (
+	"google.golang.org/protobuf/types/known/timestamppb"
 	"context"
 	"fmt"
 	"os"
@@ -63,7 +64,12 @@ func genC19(seed uint64, tier string) Case {
 		key := int64(r.intn(nkeys))
 		wait := []int64{0, 0, 0, 1, 3, 10}[r.intn(6)]
 		kind := []string{"set", "set", "set", "same", "inc", "inc", "del", "shift", "get"}[r.intn(9)]
-		c.Ops = append(c.Ops, Op{C: w, K: kind, A: []int64{key, wait}})
+		a := []int64{key, wait}
+		if kind == "set" && r.chance(1, 3) {
+			// the save also carries metadata (who/when/expiry): a later identical save without metadata is still a no-op
+			a = append(a, 1)
+		}
+		c.Ops = append(c.Ops, Op{C: w, K: kind, A: a})
 	}
 	c.Sched = genSched(r)
 	if r.chance(1, 3) {
@@ -229,8 +235,16 @@ func runC19(t *testing.T, c Case) (res Result) {
 								val = v
 							}
 						}
+						kv := &hydrapb.KeyValuePair{Key: key, Int64Val: &val}
+						if op.K == "set" && len(op.A) > 2 && op.A[2] == 1 {
+							by := "writer"
+							kv.UpdatedBy, kv.CreatedBy = &by, &by
+							kv.UpdatedAt = timestamppb.New(start.Add(time.Hour))
+							kv.CreatedAt = timestamppb.New(start.Add(time.Hour))
+							kv.ExpiredAt = timestamppb.New(start.Add(100 * time.Hour))
+						}
 						resp, err := gw.Set(ctxBg, &hydrapb.SetRequest{Swamps: []*hydrapb.SwampRequest{{IslandID: 1, SwampName: swamp, CreateIfNotExist: true, Overwrite: true,
-							KeyValues: []*hydrapb.KeyValuePair{{Key: key, Int64Val: &val}}}}})
+							KeyValues: []*hydrapb.KeyValuePair{kv}}}})
 						if err == nil && resp != nil && len(resp.Swamps) == 1 && len(resp.Swamps[0].KeysAndStatuses) == 1 {
 							ch.status = resp.Swamps[0].KeysAndStatuses[0].Status.String()
 							ch.val = val
